@@ -431,7 +431,15 @@ impl<T: Float + std::ops::AddAssign> Categorical<T> {
     /// Creates a new categorical distribution from a vector of probabilities.
     /// The probabilities will be normalized so that they sum to 1.
     pub fn new(probs: Vec<T>) -> Self {
-        let sum: T = probs.iter().cloned().fold(T::zero(), |acc, x| acc + x);
+        let mut probs = probs;
+        let mut sum: T = probs.iter().cloned().fold(T::zero(), |acc, x| acc + x);
+        if sum.is_infinite() && probs.iter().all(|p| p.is_finite()) {
+            // Finite weights whose sum overflows (e.g. exp(logit) for large logits): dividing by
+            // an infinite sum would store zero everywhere. Rescale by the largest weight first.
+            let max = probs.iter().cloned().fold(T::zero(), T::max);
+            probs.iter_mut().for_each(|p| *p = *p / max);
+            sum = probs.iter().cloned().fold(T::zero(), |acc, x| acc + x);
+        }
         let normalized: Vec<T> = probs.into_iter().map(|p| p / sum).collect();
         Self {
             probs: normalized,
